@@ -1,6 +1,7 @@
 package engine
 
 import (
+	"strconv"
 	"go/constant"
 	"go/token"
 	"go/types"
@@ -400,4 +401,54 @@ func lenTest(iff *ssa.If, isV func(ssa.Value) bool) (emptySucc int, ok bool) {
 		res = 1 - res
 	}
 	return res, true
+}
+
+// possibleInts: which of the candidate values the term may take, given the decided atoms of a trace
+// (atoms eq(a,b) and lt(a,b) where one side is the term and the other an integer literal).
+func possibleInts(pc map[string]int, term string, cands []int64) map[int64]bool {
+	out := map[int64]bool{}
+	for _, n := range cands {
+		ok := true
+		for atom, v := range pc {
+			var op string
+			switch {
+			case strings.HasPrefix(atom, "eq("):
+				op = "eq"
+			case strings.HasPrefix(atom, "lt("):
+				op = "lt"
+			default:
+				continue
+			}
+			body := atom[3 : len(atom)-1]
+			var l, r int64
+			switch {
+			case strings.HasSuffix(body, ","+term):
+				k, err := strconv.ParseInt(body[:len(body)-len(term)-1], 10, 64)
+				if err != nil {
+					continue
+				}
+				l, r = k, n
+			case strings.HasPrefix(body, term+","):
+				k, err := strconv.ParseInt(body[len(term)+1:], 10, 64)
+				if err != nil {
+					continue
+				}
+				l, r = n, k
+			default:
+				continue
+			}
+			holds := l == r
+			if op == "lt" {
+				holds = l < r
+			}
+			if holds != (v == 1) {
+				ok = false
+				break
+			}
+		}
+		if ok {
+			out[n] = true
+		}
+	}
+	return out
 }
